@@ -252,6 +252,14 @@ def check_table(case, rec):
         # legacy (alpha, beta) tuple input
         tup = (list(df[names[0]]), list(df[names[1]]))
         _same("pc-legacy-tuple", call("pc-tuple", pyrepseq.pc, tup), want, "legacy 2-tuple input")
+        # the two chains as iterables of other kinds: paired by position, whatever labels a Series carries
+        a, b = tup
+        n = len(a)
+        forms = [(np.array(a), np.array(b)), (pd.Series(a, index=range(n)), pd.Series(b, index=range(n, 2 * n))),
+                 (pd.Series(a, index=[f"r{i}" for i in range(n)]), list(b)), (pd.Series(a, index=range(n)[::-1]), pd.Series(b, index=range(n)))]
+        form = forms[(n + len(a[0])) % len(forms)]
+        _same("pc-legacy-tuple", call("pc-tuple", pyrepseq.pc, form), want,
+              f"legacy 2-tuple of {type(form[0]).__name__} / {type(form[1]).__name__} with unrelated index labels")
 
 
 CELL_STR = ["A", "B", "AB", "BC", "C", "ABC", "CAS", "CASS", "x y", "é", "Ab", "aB", "1", "01", "nan", "None"]
